@@ -22,6 +22,26 @@ _WHERE = {
             "Trusted: TLC/SANY, Match and Leaves/HasH in the spec, marker-based segment location, CPython.",
             "TLA+ spec (HtmlStr) model-checked with TLC; TLC-enumerated expressions replayed into the code; recorded "
             "renderings validated by TLC trace spec (EscapeTrace)"),
+    "C03": ("attr", "C03",
+            "TLC explores every attribute history up to the bound (construction with several dicts/keywords, update, "
+            "item assignment, add_class/add_style, plain and HTML() values for one name) on the AttrOps model and "
+            "checks that what the writer emits for each stored value matches its origin (plain parts escaped by "
+            "references that decode to them, HTML() parts verbatim); every explored history is replayed on a real Tag "
+            "and TLC judges the tokenised opening tag; plus all strings up to the bound and every code point through "
+            "the attribute escape table.",
+            "Trusted: TLC/SANY, Match and the declarative AfterCallSpec in the spec, the quote-based scanner of the "
+            "opening tag, CPython.",
+            "TLA+ spec (Attr/AttrOps/Escape) model-checked with TLC; TLC-generated histories replayed into the code; "
+            "recorded histories validated by TLC trace specs (AttrTrace, EscapeTrace)"),
+    "C15": ("attr", "C15",
+            "TLC explores attribute histories over colliding raw names and all value kinds and checks that the "
+            "accumulator-shaped model of TagAttrDict equals the declarative reading (names normalised, values of one "
+            "call joined in argument order, later calls replace, order by first appearance); each history is replayed "
+            "on a real Tag and the stored dict after every step is judged by TLC against the declarative reading; "
+            "consolidate_attrs is compared with direct construction.",
+            "Trusted: TLC/SANY, AfterCallSpec/NormName in the spec, the projection list(tag.attrs.items()), CPython.",
+            "TLA+ spec (Attr/AttrOps) model-checked with TLC; TLC-generated histories replayed into the code; recorded "
+            "histories validated by TLC trace spec (AttrTrace)"),
 }
 
 NOT_YET = {}
